@@ -2,7 +2,7 @@ ENGINES = [
     {"name": "sched (E2)", "path": "harness/src/{e2,sched}.rs", "serves_properties": ["C10", "C11"],
      "kind_free_text": "E1's tower driven by 2-3 real OS threads; an observer behind the hooked Mutex/Condvar mediates every lock operation: serialising seeded "
                        "PCT scheduler, scripted sequential reference schedules, free-running mode, wait-for / stuck detection, lock-order graph"},
-    {"name": "towersim (E1)", "path": "harness/src/{e1,model,world,tower,chain,node,snap}.rs", "serves_properties": ["C01", "C02", "C03", "C04", "C06", "C07", "C08", "C09", "C11"],
+    {"name": "towersim (E1)", "path": "harness/src/{e1,model,world,tower,chain,node,snap}.rs", "serves_properties": ["C01", "C02", "C03", "C04", "C06", "C07", "C08", "C09", "C11", "C12"],
      "kind_free_text": "the real tower components in one process against a simulated chain and node; a sequential reference model (TowerModel) and "
                        "per-property monitors compare replies, sqlite rows, private-API answers and the node RPC log after every step"},
     {"name": "pure (E6)", "path": "harness/src/pure_*.rs", "serves_properties": ["C17", "C19", "C20", "C07"],
@@ -48,6 +48,12 @@ META = {
         "technique": "runtime monitoring: wait-for/stuck-state detector inside the lock observer, lock-order graph, panic hook and liveness probe over scheduled executions and sequential histories",
         "text": "A circular wait is reported only when it manifests (no enabled thread, holders/waiters listed); any panic in tower code is a violation. Held on everything executed.",
         "note": "Sampled schedules and histories; outages of bitcoind are excluded here (C12).",
+    },
+    "C12": {
+        "engine": "towersim (E1) + outage enumerator (e1o) + sched observer", "level": "fault_enumeration", "design_ref": "DESIGN.md §4 C12",
+        "technique": "fault injection (node outage at every RPC index, block-source failures) with the tower's calls on scheduler-observed threads; bounded-progress monitor in polls and virtual clock ticks",
+        "text": "Every node RPC of each sampled history is an outage start; blocked states are observed through the lock/condvar observer rather than inferred from timeouts. Held on all enumerated faults.",
+        "note": "Unbounded liveness is restated as bounded progress; histories are sampled; one outage per run.",
     },
     "C17": {
         "engine": "pure (E6)", "level": "exploration", "design_ref": "DESIGN.md §4 C17",
